@@ -145,6 +145,13 @@ def make_iter(ex, v, by_ref):
     raise NoModel()
 
 
+def utf8_len(c):
+    """bytes of the UTF-8 encoding of a character term"""
+    if isinstance(c, int):
+        return 1 if c < 0x80 else 2 if c < 0x800 else 3 if c < 0x10000 else 4
+    return z3.If(c < 0x80, 1, z3.If(c < 0x800, 2, z3.If(c < 0x10000, 3, 4)))
+
+
 def iter_next(ex, it):
     """generator of Option values; advances the iterator (trail-managed)"""
     it = ex.deref(it)
@@ -612,6 +619,16 @@ def install(ex):
                 return z3.And(*conds)
             if a is b:
                 return z3.BoolVal(True)
+            if isinstance(a, (Adt, Lazy)) and isinstance(b, (Adt, Lazy)) and ty:
+                # a smart pointer to a crate type: the pointee's own (derived) equality
+                t = ty.strip().lstrip("&").strip()
+                while base_ty(t) in ("Rc", "Box", "RefCell"):
+                    t = inner_ty(t) or ""
+                if t:
+                    rs = list(ex.call("<%s as PartialEq>::eq" % t, [Ref(Cell(a)), Ref(Cell(b))], "bool", 2))
+                    if len(rs) == 1:
+                        return rs[0]
+                    raise Unsupported("pointee equality forked")
             raise Unsupported("container equality on %r %r" % (a, b))
 
         r = eq(args[0], args[1], self_type(callee))
@@ -644,9 +661,80 @@ def install(ex):
         else:
             yield z3.If(z3.And(c >= 97, c <= 122), c - 32, c)
 
+    @model(r"^<(usize|u32|u64|u8|u16) as TryFrom<(i32|i64|isize|i8|i16)>>::try_from$|^<(i32|i64|isize|i8|i16|u8|u16|u32) as TryFrom<(usize|u32|u64|i64|isize|i32)>>::try_from$", "integer TryFrom: Ok inside the target range, Err outside")
+    def int_try_from(ex, callee, args, rt):
+        v = args[0]
+        target = re.match(r"^<(\w+) as", callee).group(1)
+        lo, hi = INT_RANGES[target]
+        for i in ex.branches([z3.And(v >= lo, v <= hi), z3.Or(v < lo, v > hi)]):
+            yield Ok(v) if i == 0 else Err(Opaque("TryFromIntError", "out of range"))
+
+    @model(r"^(std::string::)?String::with_capacity$", "String::with_capacity")
+    def string_with_capacity(ex, callee, args, rt):
+        yield CharStr(()) if getattr(ex, "string_mode", "") == "chars" else StrVal("")
+
+    @model(r"^(std::result::)?Result::(unwrap_or_default|unwrap_or)$", "Result::unwrap_or_default / unwrap_or (integer / boolean defaults)")
+    def res_unwrap_or(ex, callee, args, rt):
+        o = args[0]
+        for v in enum_branch(ex, o, ["Ok", "Err"]):
+            if v == "Ok":
+                yield variant_field(ex, o, "Ok", 0)
+            elif strip_turbofish(callee).endswith("unwrap_or"):
+                yield args[1]
+            elif rt.strip() in INT_RANGES:
+                yield z3.IntVal(0)
+            elif rt.strip() == "bool":
+                yield z3.BoolVal(False)
+            else:
+                raise Unsupported("Default of " + rt)
+
+    @model(r"^<.* as (Fn|FnMut|FnOnce)<\(.*\)>>::(call|call_mut|call_once)$", "calling a closure / function value through the Fn traits")
+    def fn_trait_call(ex, callee, args, rt):
+        f = args[0]
+        tup = ex.deref(args[1]) if len(args) > 1 else Tup([])
+        items = list(tup.items) if isinstance(tup, Tup) else [tup]
+        yield from ex.call_closure(f, items)
+
     @model(r"^((core|std)::hint::)?must_use$|^((core|std)::hint::)?black_box$", "hint::must_use / black_box: identity")
     def must_use(ex, callee, args, rt):
         yield args[0]
+
+    @model(r"^<(.+) as Into<(std::option::)?Option<(.+)>>>::into$|^<(std::option::)?Option<(.+)> as From<(.+)>>::from$", "T -> Option<T> (Some)")
+    def into_option(ex, callee, args, rt):
+        yield Some(args[0])
+
+    @model(r"^(either::)?Either::(<.*>::)?(left|right|is_left|is_right)$", "either::Either::left / right / is_left / is_right")
+    def either_side(ex, callee, args, rt):
+        e = ex.deref(args[0])
+        op = strip_turbofish(callee).rsplit("::", 1)[1]
+        ENUMS.setdefault("Either", ["Left", "Right"])
+        for v in enum_branch(ex, e, ["Left", "Right"]):
+            if op in ("left", "right"):
+                yield Some(variant_field(ex, e, v, 0)) if v.lower() == op else NONE
+            else:
+                yield z3.BoolVal(("is_" + v.lower()) == op)
+
+    @model(r"^(std::option::)?Option::transpose$", "Option<Result<T, E>>::transpose")
+    def opt_transpose(ex, callee, args, rt):
+        o = args[0]
+        for v in enum_branch(ex, o, ["Some", "None"]):
+            if v == "None":
+                yield Ok(NONE)
+            else:
+                r = variant_field(ex, o, "Some", 0)
+                for w in enum_branch(ex, r, ["Ok", "Err"]):
+                    yield Ok(Some(variant_field(ex, r, "Ok", 0))) if w == "Ok" else Err(variant_field(ex, r, "Err", 0))
+
+    @model(r"^(std::result::)?Result::transpose$", "Result<Option<T>, E>::transpose")
+    def res_transpose(ex, callee, args, rt):
+        r = args[0]
+        for w in enum_branch(ex, r, ["Ok", "Err"]):
+            if w == "Err":
+                yield Some(Err(variant_field(ex, r, "Err", 0)))
+            else:
+                o = variant_field(ex, r, "Ok", 0)
+                for v in enum_branch(ex, o, ["Some", "None"]):
+                    yield Some(Ok(variant_field(ex, o, "Some", 0))) if v == "Some" else NONE
 
     @model(r"^(std::option::)?Option::(ok_or_else)$", "Option::ok_or_else")
     def opt_ok_or_else(ex, callee, args, rt):
@@ -1203,9 +1291,26 @@ def install(ex):
     @model(r"^core::str::<impl str>::(strip_prefix|trim_start_matches)$", "str::strip_prefix (once) / trim_start_matches (repeatedly, up to 3 times in the model)")
     def str_strip(ex, callee, args, rt):
         a, b = ex.deref(args[0]), ex.deref(args[1])
+        if isinstance(a, CharStr) and strip_turbofish(callee).endswith("strip_prefix"):
+            # character-list strings: the pattern is a character or a literal string
+            if is_z3(b) and z3.is_int(b):
+                pat = [b]
+            elif isinstance(b, StrVal) and b.concrete() is not None:
+                pat = [z3.IntVal(ord(ch)) for ch in b.concrete()]
+            elif isinstance(b, CharStr):
+                pat = list(b.chars)
+            else:
+                raise Unsupported("strip_prefix pattern %r" % (b,))
+            if len(a.chars) < len(pat):
+                yield NONE
+                return
+            has = z3.And(*[x == y for x, y in zip(a.chars, pat)]) if pat else z3.BoolVal(True)
+            for i in ex.branches([has, z3.Not(has)]):
+                yield Some(CharStr(a.chars[len(pat):])) if i == 0 else NONE
+            return
         if not (isinstance(a, StrVal) and isinstance(b, StrVal)):
             raise Unsupported("strip on %r %r" % (a, b))
-        once = callee.endswith("strip_prefix")
+        once = strip_turbofish(callee).endswith("strip_prefix")
         has = z3.PrefixOf(b.t, a.t)
         rest = z3.SubString(a.t, z3.Length(b.t), z3.Length(a.t) - z3.Length(b.t))
         if once:
@@ -1386,7 +1491,13 @@ def install(ex):
         sv = ex.deref(args[0])
         n = None
         if isinstance(sv, CharStr):
-            n = len(sv.chars)
+            # len() counts BYTES of the UTF-8 encoding
+            total = z3.simplify(z3.Sum([utf8_len(c) for c in sv.chars])) if sv.chars else z3.IntVal(0)
+            if callee.endswith("len"):
+                yield total
+            else:
+                yield z3.BoolVal(len(sv.chars) == 0)
+            return
         elif isinstance(sv, StrVal) and sv.concrete() is not None:
             n = len(sv.concrete().encode("utf-8"))
         if n is None:
@@ -1395,6 +1506,61 @@ def install(ex):
                 return
             raise Unsupported("str::len of %r" % (sv,))
         yield z3.IntVal(n) if callee.endswith("len") else z3.BoolVal(n == 0)
+
+    @model(r"^(std::string::)?String::truncate$", "String::truncate(n) on a character list: n counts bytes and must fall on a character boundary (panic otherwise)")
+    def string_truncate(ex, callee, args, rt):
+        r = args[0]
+        cur = ex.load(r)
+        while isinstance(cur, Ref):
+            r = cur
+            cur = ex.load(r)
+        if not isinstance(cur, CharStr):
+            raise Unsupported("truncate of %r" % (cur,))
+        n = args[1]
+        sums = [z3.IntVal(0)]
+        for c in cur.chars:
+            sums.append(z3.simplify(sums[-1] + utf8_len(c)))
+        conds = [n >= sums[-1]] + [z3.And(n == sums[i], n < sums[-1]) for i in range(len(cur.chars))]
+        conds.append(z3.And(n < sums[-1], *[n != x for x in sums[:-1]]))
+        for i in ex.branches(conds):
+            if i == 0:
+                yield UNIT
+            elif i <= len(cur.chars):
+                ex.store(r, CharStr(cur.chars[:i - 1]))
+                yield UNIT
+            else:
+                ex.panic("String::truncate: not on a character boundary", callee)
+
+    @model(r"^core::num::<impl (u32|i32|u8|u16|u64|usize|i64)>::from_str_radix$", "from_str_radix on a character list (radix 10 and 16): digits only, value within range")
+    def from_str_radix(ex, callee, args, rt):
+        sv = ex.deref(args[0])
+        radix = conc_int(args[1])
+        ty = re.search(r"<impl (\w+)>", callee).group(1)
+        if not isinstance(sv, CharStr) or radix not in (10, 16) or ty.startswith("i"):
+            raise Unsupported("from_str_radix(%r, %r)" % (sv, radix))
+        lo, hi = INT_RANGES[ty]
+        if not sv.chars:
+            yield Err(Opaque("ParseIntError", "empty"))
+            return
+        oks, val = [], z3.IntVal(0)
+        for c in sv.chars:
+            dec = z3.And(c >= 48, c <= 57)
+            lw = z3.And(c >= 97, c <= 102)
+            up = z3.And(c >= 65, c <= 70)
+            oks.append(dec if radix == 10 else z3.Or(dec, lw, up))
+            dv = c - 48 if radix == 10 else z3.If(dec, c - 48, z3.If(lw, c - 87, c - 55))
+            val = val * radix + dv
+        # a leading '+' is accepted by std; not modelled (the callers here strip their own prefixes)
+        good = z3.And(*oks, val <= hi)
+        for i in ex.branches([good, z3.Not(good)]):
+            yield Ok(z3.simplify(val)) if i == 0 else Err(Opaque("ParseIntError", "invalid"))
+
+    @model(r"^(core::)?char::(methods::<impl char>::)?from_u32$|^std::char::from_u32$|^char::from_u32$", "char::from_u32: None for surrogates and values above 0x10FFFF")
+    def char_from_u32(ex, callee, args, rt):
+        v = args[0]
+        ok = z3.Or(z3.And(v >= 0, v <= 0xD7FF), z3.And(v >= 0xE000, v <= 0x10FFFF))
+        for i in ex.branches([ok, z3.Not(ok)]):
+            yield Some(v) if i == 0 else NONE
 
     @model(r"^(std::string::)?String::push$", "String::push(char): concatenation with the one-character string of that code point")
     def string_push(ex, callee, args, rt):
@@ -1889,6 +2055,27 @@ def install(ex):
                 acc = z3.If(v >= acc, v, acc) if want_max else z3.If(v < acc, v, acc)
             yield Some(z3.simplify(acc))
 
+    @model(r"as Iterator>::zip(::<.*>)?$", "Iterator::zip: pairs until either side ends (the left side is advanced first, as in std)")
+    def it_zip(ex, callee, args, rt):
+        a = make_iter(ex, args[0], False) if not isinstance(ex.deref(args[0]), IterObj) else args[0]
+        b = make_iter(ex, args[1], False) if not isinstance(ex.deref(args[1]), IterObj) else args[1]
+
+        def nxt(ex_, it_):
+            for x in iter_next(ex_, a):
+                if x.variant == "None":
+                    yield NONE
+                    continue
+                for y in iter_next(ex_, b):
+                    if y.variant == "None":
+                        yield NONE
+                    else:
+                        yield Some(Tup([x.fields[0], y.fields[0]]))
+        yield IterObj("custom", next=nxt)
+
+    @model(r"as Iterator>::by_ref$", "Iterator::by_ref: the iterator itself")
+    def it_by_ref(ex, callee, args, rt):
+        yield args[0]
+
     @model(r"as Iterator>::partition$", "Iterator::partition into two Vecs")
     def it_partition(ex, callee, args, rt):
         it = make_iter(ex, args[0], False)
@@ -2113,6 +2300,13 @@ def install(ex):
                     f = lst[0]
         if f is None:
             raise Unsupported("collect into " + target)
+        inames, ipat = ex.impl_generics(f)
+        if inames and ipat:
+            binds = {}
+            ex.unify_types(ipat, target.strip(), inames, binds)
+            binds = {k: v for k, v in binds.items() if v not in inames and v != k}
+            if binds:
+                ex.pending_generics = dict(binds)
         yield from ex.run(f, [make_iter(ex, src, False)], 1)
 
     ex.collect_into = collect_into
